@@ -1,4 +1,5 @@
 import Evl.Model.FileSink
+import Evl.Lemmas.FileSinkOrd
 /-!
 # C08 — FileSink never loses, duplicates, reorders or tears an acknowledged event
 
@@ -12,11 +13,17 @@ Proved for every operation sequence and every configuration:
 * `file_order` — inside every file the events are in acknowledgement order (append-only);
 * `retention_only_removes` — pruneFiles only removes whole files (what remains is a sub-sequence
   of what was there), and removes nothing when MaxFiles = 0.
-Labelled **partial**: the order *across* files and the suffix shape under retention hold in the
-model by construction (`appendTo` writes to the newest inode, `prune` takes the oldest timestamps)
-and are checked on the implementation after every step by the Go oracle (`checkFiles`), including
-with 1–8 concurrent writers and a child process SIGKILLed at a random instant; the corresponding
-Lean invariant (the open descriptor is the newest inode) is not yet proved.
+* `exactly_once_in_order` — with MaxFiles = 0, reading the files oldest to newest yields exactly the
+  acknowledged sequence (each event once, in acknowledgement order, across any rotations, Reopen
+  calls and external renames), from the ordering invariant `Ord` (the open descriptor is the newest
+  inode; `Lemmas/FileSinkOrd.lean`);
+* `suffix_under_retention` — with any MaxFiles, along histories without external renames, what the
+  files hold is a suffix of the acknowledged sequence (retention removes the oldest inodes).
+Not covered by a theorem: the suffix shape when files were renamed away by somebody else (a renamed
+file is outside the sink's name space and is never pruned, so what remains is then not a suffix in
+general — the statement's "only files removed by the retention limit may be missing" still holds by
+`retention_only_removes`); crash atomicity rests on `write(2)`/`O_APPEND` (DESIGN.md §8) and is
+exercised by the SIGKILL runs.
 -/
 namespace Evl.C08
 open Evl.FileSink
@@ -260,9 +267,311 @@ theorem nothing_invented (c : Cfg) (hc : c.maxFiles = 0) (ops : List Op) :
   | nil => intro s h; exact h
   | cons op rest ih => intro s h; exact ih _ (step_holds c hc s op h)
 
+
+/-! ### order across files, exactly once -/
+
+theorem rotate_acked (c : Cfg) (s : St) (el : Nat) : (rotate c s el).1.acked = s.acked := by
+  unfold rotate
+  have hp : ∀ t : St, (prune c t).acked = t.acked := by
+    intro t; unfold prune; split <;> rfl
+  split
+  · split
+    · split
+      · rfl
+      · rw [(open_contents c _).2, hp]; rfl
+    · rw [(open_contents c _).2, hp]; rfl
+  · rfl
+
+theorem rotate_contents_eq (c : Cfg) (hc : c.maxFiles = 0) (s : St) (el : Nat) :
+    contents (rotate c s el).1 = contents s := by
+  unfold rotate
+  have hp : ∀ t : St, prune c t = t := fun t => (retention_only_removes c t).2 hc
+  split
+  · split
+    · split
+      · rfl
+      · rw [(open_contents c _).1, hp]; rfl
+    · rw [(open_contents c _).1, hp]; rfl
+  · rfl
+
+/-- what one operation does to the acknowledged sequence and to the files, with MaxFiles = 0 -/
+theorem step_in_order (c : Cfg) (hc : c.maxFiles = 0) (s : St) (op : Op) (ho : Ord c s)
+    (h : contents s = s.acked) : contents (step c s op).1 = (step c s op).1.acked := by
+  cases op with
+  | write ev size elapsed =>
+    simp only [step]
+    generalize (if s.fd.isNone = true then 0 else elapsed) = el
+    have h2 := ord_rotate el (ord_open (c := c) ho)
+    have hcont : contents (rotate c (openFile c s) el).1 = (rotate c (openFile c s) el).1.acked := by
+      rw [rotate_contents_eq c hc, rotate_acked, (open_contents c s).1, (open_contents c s).2, h]
+    cases hr : (rotate c (openFile c s) el).2 with
+    | errRotate => simp only; exact hcont
+    | ok =>
+      cases hfd : (rotate c (openFile c s) el).1.fd with
+      | none => simp only; exact hcont
+      | some i =>
+        simp only
+        rw [append_at_end h2 hfd, hcont]
+        rfl
+  | reopen =>
+    simp only [step]
+    rw [(open_contents c _).1, (open_contents c _).2]
+    split
+    · split
+      · exact h
+      · exact h
+    · exact h
+  | extRename k =>
+    simp only [step]
+    split
+    · split
+      · exact h
+      · exact h
+    · exact h
+
+/-- **Exactly once, in acknowledgement order, across files.**  With MaxFiles = 0, after every
+operation sequence (size- or time-triggered rotations, Reopen, external renames of the active file)
+reading the sink's files from the oldest to the newest yields exactly the acknowledged events, each
+once, in acknowledgement order. -/
+theorem exactly_once_in_order (c : Cfg) (hc : c.maxFiles = 0) (ops : List Op) :
+    contents (run c {} ops) = (run c {} ops).acked := by
+  suffices ∀ s, Ord c s → contents s = s.acked → contents (run c s ops) = (run c s ops).acked from
+    this {} (ord_init c) rfl
+  induction ops with
+  | nil => intro s _ h; exact h
+  | cons op rest ih => intro s ho h; exact ih _ (ord_step op ho) (step_in_order c hc s op ho h)
+
+/-! ### retention removes a prefix -/
+
+def NoForeign (s : St) : Prop := ∀ e ∈ s.dir, ∀ k, e.1 ≠ Name.foreign k
+
+theorem sortTs_of_sorted (l : List (Nat × Nat)) (h : l.Pairwise (fun a b => a.1 < b.1)) : sortTs l = l := by
+  induction l with
+  | nil => rfl
+  | cons x xs ih =>
+    have hx := List.pairwise_cons.mp h
+    rw [sortTs, ih hx.2]
+    cases xs with
+    | nil => rfl
+    | cons y ys =>
+      have := hx.1 y (by simp)
+      simp only [insertTs]
+      have hle : x.1 ≤ y.1 := Nat.le_of_lt this
+      simp [hle]
+
+theorem filterMap_tsOf_snd (d : List (Name × Nat)) (h : ∀ e ∈ d, isTs e.1 = true) :
+    (d.filterMap tsOf).map (·.2) = d.map (·.2) := by
+  induction d with
+  | nil => rfl
+  | cons x xs ih =>
+    have hx := h x (by simp)
+    obtain ⟨xn, xi⟩ := x
+    cases xn with
+    | plain => simp [isTs] at hx
+    | foreign k => simp [isTs] at hx
+    | ts n =>
+      simp only [List.filterMap_cons, tsOf, List.map_cons]
+      rw [ih (fun e he => h e (List.mem_cons_of_mem _ he))]
+
+theorem filter_take_drop {α : Type} (f : α → Nat) (l : List α) (h : (l.map f).Nodup) (k : Nat) :
+    l.filter (fun x => !((l.map f).take k).contains (f x)) = l.drop k := by
+  induction l generalizing k with
+  | nil => simp
+  | cons x xs ih =>
+    cases k with
+    | zero => simp
+    | succ k =>
+      simp only [List.map_cons, List.take_succ_cons, List.drop_succ_cons]
+      have hn := List.nodup_cons.mp h
+      rw [List.filter_cons]
+      simp only [List.contains_cons, beq_self_eq_true, Bool.true_or, Bool.not_true, Bool.false_eq_true, if_false]
+      rw [← ih hn.2 k]
+      apply List.filter_congr
+      intro y hy
+      have : (f y == f x) = false := by
+        simp only [beq_eq_false_iff_ne, ne_eq]
+        intro e
+        exact hn.1 (e ▸ List.mem_map.mpr ⟨y, hy, rfl⟩)
+      simp [this]
+
+/-- when every directory entry is one of the sink's own timestamped files, `pruneFiles` removes the
+oldest inodes: what the files hold afterwards is a suffix of what they held -/
+theorem prune_suffix {c : Cfg} {s : St} (ho : Ord c s) (hts : ∀ e ∈ s.dir, isTs e.1 = true) :
+    contents (prune c s) <:+ contents s := by
+  unfold prune
+  split
+  · exact List.suffix_refl _
+  · simp only
+    have h1 : tsFiles s.dir = s.dir.filterMap tsOf := sortTs_of_sorted _ ho.tsSorted
+    have h2 : (tsFiles s.dir).map (·.2) = s.inodes.map (·.id) := by
+      rw [h1, filterMap_tsOf_snd _ hts, ho.dirInodes]
+    generalize (tsFiles s.dir).length - c.maxFiles = k
+    have h3 : ((tsFiles s.dir).take k).map (·.2) = (s.inodes.map (·.id)).take k := by
+      rw [List.map_take, h2]
+    unfold contents
+    simp only [h3]
+    rw [filter_take_drop (·.id) s.inodes (lt_pairwise_nodup ho.sorted) k]
+    have : s.inodes = s.inodes.take k ++ s.inodes.drop k := (List.take_append_drop k s.inodes).symm
+    refine ⟨(s.inodes.take k).flatMap (·.evs), ?_⟩
+    rw [← List.flatMap_append, List.take_append_drop]
+
+theorem prune_dir_sub (c : Cfg) (s : St) : ∀ e ∈ (prune c s).dir, e ∈ s.dir := by
+  intro e he
+  unfold prune at he
+  split at he
+  · exact he
+  · exact (List.mem_filter.mp he).1
+
+theorem open_noForeign (c : Cfg) (s : St) (h : NoForeign s) : NoForeign (openFile c s) := by
+  unfold openFile
+  cases hfd : s.fd with
+  | some _ => exact h
+  | none =>
+    simp only
+    cases hl : lookup s.dir (openName c s) with
+    | some i => exact h
+    | none =>
+      intro e he k
+      simp only [List.mem_append, List.mem_singleton] at he
+      rcases he with he | he
+      · exact h e he k
+      · subst he
+        rcases openName_cases c s with ⟨_, hn⟩ | ⟨_, hn⟩ <;> simp [hn]
+
+/-- rotation keeps the acknowledged sequence and leaves a suffix of the files' contents, when nobody
+renamed files away -/
+theorem rotate_suffix (c : Cfg) (s : St) (el : Nat) (ho : Ord c s) (hf : NoForeign s) :
+    contents (rotate c s el).1 <:+ contents s ∧ NoForeign (rotate c s el).1 := by
+  unfold rotate
+  by_cases hn : needRotate c s.bytesWritten el = true
+  · simp only [hn, if_true]
+    by_cases ht : c.tsOnly = true
+    · simp only [ht, if_true]
+      cases hl : lookup (closeFd s).dir .plain with
+      | none => exact ⟨List.suffix_refl _, hf⟩
+      | some i =>
+        simp only
+        have hmem : (Name.plain, i) ∈ (closeFd s).dir := lookup_mem' hl
+        obtain ⟨h1, h2⟩ := ord_renamePlain (ord_close ho) rfl hmem
+        have hnf : NoForeign (renamePlain (closeFd s) i) := by
+          intro e he k
+          simp only [renamePlain, closeFd, List.mem_map] at he
+          obtain ⟨x, hx, hxe⟩ := he
+          split at hxe
+          · subst hxe; simp
+          · subst hxe; exact hf x hx k
+        have hts : ∀ e ∈ (renamePlain (closeFd s) i).dir, isTs e.1 = true := by
+          intro e he
+          obtain ⟨en, ei⟩ := e
+          cases en with
+          | plain => exact absurd he (h2 ei)
+          | foreign k => exact absurd rfl (hnf _ he k)
+          | ts n => rfl
+        have hs := prune_suffix (c := c) h1 hts
+        refine ⟨?_, ?_⟩
+        · rw [(open_contents c _).1]
+          exact hs
+        · apply open_noForeign
+          intro e he k
+          exact hnf e (prune_dir_sub c _ e he) k
+    · simp only [ht, if_false, Bool.false_eq_true]
+      have hu : usesPlain c = false := by
+        unfold usesPlain rotateEnabled
+        unfold needRotate at hn
+        have ht' : c.tsOnly = false := by simpa using ht
+        rw [ht']
+        simp only [Bool.false_or, Bool.not_eq_false', Bool.or_eq_true, decide_eq_true_eq, bne_iff_ne, ne_eq]
+        simp only [Bool.or_eq_true, Bool.and_eq_true, decide_eq_true_eq] at hn
+        rcases hn with ⟨_, hn⟩ | ⟨_, hn⟩
+        · exact Or.inl hn
+        · exact Or.inr (by omega)
+      have hts : ∀ e ∈ (closeFd s).dir, isTs e.1 = true := by
+        intro e he
+        obtain ⟨en, ei⟩ := e
+        cases en with
+        | plain => exact absurd he (ho.noPlain hu ei)
+        | foreign k => exact absurd rfl (hf _ he k)
+        | ts n => rfl
+      have hs := prune_suffix (c := c) (ord_close ho) hts
+      refine ⟨?_, ?_⟩
+      · rw [(open_contents c _).1]
+        exact hs
+      · apply open_noForeign
+        intro e he k
+        exact hf e (prune_dir_sub c (closeFd s) e he) k
+  · simp only [hn, if_false, Bool.false_eq_true]
+    exact ⟨List.suffix_refl _, hf⟩
+
+def notRename : Op → Bool
+  | .extRename _ => false
+  | _ => true
+
+theorem step_suffix (c : Cfg) (s : St) (op : Op) (hop : notRename op = true) (ho : Ord c s) (hf : NoForeign s)
+    (h : contents s <:+ s.acked) :
+    contents (step c s op).1 <:+ (step c s op).1.acked ∧ NoForeign (step c s op).1 := by
+  cases op with
+  | write ev size elapsed =>
+    simp only [step]
+    generalize (if s.fd.isNone = true then 0 else elapsed) = el
+    have ho1 := ord_open (c := c) ho
+    have h2 := ord_rotate el ho1
+    obtain ⟨hs, hnf⟩ := rotate_suffix c (openFile c s) el ho1 (open_noForeign c s hf)
+    have hcont : contents (rotate c (openFile c s) el).1 <:+ (rotate c (openFile c s) el).1.acked := by
+      rw [rotate_acked, (open_contents c s).2]
+      rw [(open_contents c s).1] at hs
+      exact List.IsSuffix.trans hs h
+    cases hr : (rotate c (openFile c s) el).2 with
+    | errRotate => simp only; exact ⟨hcont, hnf⟩
+    | ok =>
+      cases hfd : (rotate c (openFile c s) el).1.fd with
+      | none => simp only; exact ⟨hcont, hnf⟩
+      | some i =>
+        simp only
+        refine ⟨?_, hnf⟩
+        rw [append_at_end h2 hfd]
+        obtain ⟨pre, hpre⟩ := hcont
+        exact ⟨pre, by simp only [appendTo]; rw [← hpre]; simp⟩
+  | reopen =>
+    simp only [step]
+    refine ⟨?_, ?_⟩
+    · rw [(open_contents c _).1, (open_contents c _).2]
+      split
+      · split
+        · exact h
+        · exact h
+      · exact h
+    · apply open_noForeign
+      split
+      · split
+        · exact hf
+        · exact hf
+      · exact hf
+  | extRename k => cases hop
+
+/-- **Retention leaves a suffix.**  For every configuration (any MaxFiles) and every operation
+sequence in which nobody renames files away, what the sink's files hold — read oldest to newest — is
+a suffix of the acknowledged sequence: only the oldest events can be missing, and those only through
+`pruneFiles`. -/
+theorem suffix_under_retention (c : Cfg) (ops : List Op) (hops : ops.all notRename = true) :
+    contents (run c {} ops) <:+ (run c {} ops).acked := by
+  suffices ∀ s, Ord c s → NoForeign s → contents s <:+ s.acked → contents (run c s ops) <:+ (run c s ops).acked from
+    this {} (ord_init c) (fun e he => by simp at he) (List.suffix_refl _)
+  induction ops with
+  | nil => intro s _ _ h; exact h
+  | cons op rest ih =>
+    intro s ho hf h
+    simp only [List.all_cons, Bool.and_eq_true] at hops
+    obtain ⟨h1, h2⟩ := step_suffix c s op hops.1 ho hf h
+    exact ih hops.2 _ (ord_step op ho) h2 h1
+
 /-- Non-vacuity: rotation by size, an external rename followed by Reopen, timestamp-only naming. -/
 def demoOps : List Op := [.write 1 60 0, .write 2 60 0, .write 3 60 0, .extRename 1, .write 4 10 0, .reopen, .write 5 10 0]
 example : contents (run ⟨100, 0, 0, true, 0⟩ {} demoOps) = [1, 2, 3, 4, 5] ∧ (run ⟨100, 0, 0, true, 0⟩ {} demoOps).acked = [1, 2, 3, 4, 5] := by decide
 example : (run ⟨100, 0, 0, true, 0⟩ {} demoOps).dir = [(Name.ts 2, 1), (Name.foreign 1, 3), (Name.plain, 4)] := by decide
+
+/-- retention at work: three rotations with MaxFiles = 1, the two oldest files are gone -/
+def demoRet : List Op := [.write 1 60 0, .write 2 60 0, .write 3 60 0, .write 4 60 0, .reopen, .write 5 60 0]
+example : contents (run ⟨50, 1, 0, false, 0⟩ {} demoRet) = [3, 4, 5] ∧ (run ⟨50, 1, 0, false, 0⟩ {} demoRet).acked = [1, 2, 3, 4, 5] := by decide
+example : demoRet.all notRename = true := by decide
 
 end Evl.C08
